@@ -157,6 +157,7 @@ def job(payload):
             # layout / spelling
             for name, kw in (("whitespace", dict(ws=True)), ("comments", dict(ws=True, comments=True)),
                              ("escapes", dict(strenc=True)), ("string splitting", dict(split=True)),
+                             ("no blanks where tokens cannot merge", dict(tight=True)),
                              ("all layout", dict(ws=True, comments=True, strenc=True, split=True))):
                 st = zast.Style(rng, **kw)
                 t = zast.text(prog, st)
